@@ -346,7 +346,24 @@ def _m_bool(x=False):
     return bool(x)
 
 
+def _m_range(*a):
+    if not anysym(a):
+        return range(*a)
+    if len(a) == 2 or (len(a) == 3 and a[2] == 1):
+        import z3
+        start, stop = a[0], a[1]
+        d = stop - start
+        if isinstance(d, SInt):
+            e = z3.simplify(d.e)
+            if z3.is_bv_value(e):
+                d = core._signed(e.as_long())
+        if isinstance(d, int):
+            return [start + i for i in range(max(d, 0))]
+    return range(*[realise(x) for x in a])
+
+
 CALL_MODELS = {
+    range: _m_range,
     len: _m_len, bytes: _m_bytes, bytearray: _m_bytearray, str: _m_str,
     int: _m_int, float: _m_float, format: _m_format,
     min: _m_minmax('min'), max: _m_minmax('max'),
@@ -395,7 +412,19 @@ def _pat_method(p, name, a, k):
 # call / callm
 # ---------------------------------------------------------------------------
 
+_HARMLESS = {list, tuple, dict, set, frozenset, enumerate, zip, reversed,
+             iter, next, sorted, getattr, setattr, hasattr, delattr, id,
+             callable, any, all, map, filter, hash, divmod, slice, abs,
+             issubclass, object, property, classmethod, staticmethod}
+_HARMLESS_RECV = (list, tuple, dict, set, frozenset)
+
+
 def _is_cfunc(f):
+    if f in _HARMLESS:
+        return False
+    recv = getattr(f, '__self__', None)
+    if recv is not None and type(recv) in _HARMLESS_RECV:
+        return False
     return isinstance(f, _CFUNC_TYPES) or (
         isinstance(f, type) and f.__module__ == 'builtins')
 
